@@ -4,7 +4,7 @@
 One scratch git worktree of /repo HEAD per code area under /tmp/ben/<Bnn> (outside /repo and /verif) and one prompt per area
 in /tmp/ben/prompts/<Bnn>.txt.  The prompt names the code area only -- nothing from /verif, no property text.
 
-usage: prep_benign_round.py [first-number]      (default 1 -> B01..B10; 11 -> B11..B20)
+usage: prep_benign_round.py [first-number] [--set2]   (default 1 -> B01..B10; 11 -> B11..B20; --set2: a second list of code areas)
 After the agents finish:  tools/run_benign.py --harvest /tmp/ben ; then remove the worktrees:
   for d in /tmp/ben/B*; do git -C /repo worktree remove --force $d; done
 """
@@ -24,6 +24,19 @@ AREAS = [
     "src/wikitextprocessor/lua/_sandbox_phase1.lua and _sandbox_phase2.lua (the Lua sandbox: new_require, new_loader, new_loadData, _lua_reset_env, _lua_set_timeout, _lua_invoke, prepare_frame_args, frame_args_index)",
     "src/wikitextprocessor/node_expand.py (to_wikitext, to_html, to_text, to_attrs)",
     "src/wikitextprocessor/dumpparser.py, interwiki.py, wikidata.py (dump ingestion pipeline: parse_dump_xml, process_dump, add_default_templates, analyze_and_overwrite_pages, overwrite_single_page, init_interwiki_map)",
+]
+
+AREAS_2 = [
+    "src/wikitextprocessor/core.py: message recording and page bookkeeping (error, warning, debug, _fmt_errmsg, to_return, start_page, start_section, start_subsection, parse, parse_encoded, node_to_wikitext/html/text, read_by_title, page_exists, get_page_body, template_override_funcs handling)",
+    "src/wikitextprocessor/core.py: reprocess / process / process_input style multiprocessing entry points and helpers (phase1_page_handler, _phase2_page_handler, process, reprocess, make sure worker contexts behave the same), plus Wtp.close_db_conn / __enter__-like lifecycle code",
+    "src/wikitextprocessor/core.py: _template_to_body, preprocess_text and its nested substitution functions, _unexpanded_template/_unexpanded_arg/_unexpanded_link/_unexpanded_extlink, _canonicalize_parserfn_name, _canonicalize_template_name",
+    "src/wikitextprocessor/parser.py: process_text, token_iter, token_list construction, text_fn, hline_fn, bold_fn, italic_fn, url_fn, colon_fn, pop_until_nth_list, _parser_have, WikiNode/TemplateNode/HTMLNode/LevelNode classes and their find/filter helpers",
+    "src/wikitextprocessor/parser.py: tag_fn (start tags, end tags, implicit closing via the ALLOWED_HTML_TAGS relations), parse_attrs, _parser_pop and its unclosed-node fix-ups, print_tree, table_row_check_attrs/table_check_attrs/check_for_attributes",
+    "src/wikitextprocessor/parserfns.py: the page-name and url family (fullpagename_fn, pagename_fn, basepagename_fn, rootpagename_fn, subpagename_fn, talkpagename_fn, namespace_fn, fullurl_fn, urlencode_fn, anchorencode_fn, ns_fn, localurl), titleparts_fn, time/date functions (time_fn, currentyear etc.), lc/uc/lcfirst/ucfirst, len/pos/rpos/sub/replace/explode",
+    "src/wikitextprocessor/luaexec.py: the Python helpers exposed to Lua (mw_text_decode, mw_text_encode, mw_text_jsondecode, mw_text_jsonencode, get_page_info, get_page_content, fetch_language_name(s), top_lua_stack, get_current_title, mw_language_format_date_python) and set_lua_env_funcs / append_env / top_env",
+    "src/wikitextprocessor/lua/*.lua other than the two sandbox files: mw.lua, mw_text.lua, mw_title.lua, mw_language.lua, mw_uri.lua, mw_html.lua, mw_hash.lua, mw_site.lua, mw_message.lua, mw_wikibase.lua (pick any; keep behaviour identical)",
+    "src/wikitextprocessor/wikihtml.py, common.py, logging_utils.py, and the way core.py builds allowed_html_tags / extension tags in __init__ (data tables may be re-expressed but must stay value-identical)",
+    "src/wikitextprocessor/core.py: analyze_templates, check_template_need_expand, set_template_pre_expand, get_all_pages, build_sql_where_query, template_pre_expand bookkeeping, add_default_templates in dumpparser.py",
 ]
 
 BASE = '''You are helping to test a static-analysis framework for FALSE ALARMS. You work ONLY inside the scratch git worktree {wt} (a checkout of the open-source project tatuylonen/wikitextprocessor; Python package under src/wikitextprocessor, Lua sandbox sources under src/wikitextprocessor/lua). Do NOT read, list or touch /verif or /repo. The sandbox has no network.
@@ -51,15 +64,16 @@ Your final message: one line per refactoring saying what it restructures.'''
 
 def main():
     first = int(sys.argv[1]) if len(sys.argv) > 1 else 1
+    areas = AREAS_2 if "--set2" in sys.argv else AREAS
     os.makedirs("/tmp/ben/prompts", exist_ok=True)
     shutil.copy("/verif/tools/baseline_check.py", "/tmp/ben/baseline_check.py")
-    for i, area in enumerate(AREAS):
+    for i, area in enumerate(areas):
         k = "B%02d" % (first + i)
         wt = "/tmp/ben/" + k
         if not os.path.exists(wt):
             subprocess.run(["git", "-C", "/repo", "worktree", "add", "--detach", "-q", wt, "HEAD"], check=True)
         open("/tmp/ben/prompts/%s.txt" % k, "w").write(BASE.format(wt=wt, area=area))
-    print("prepared", len(AREAS), "prompts from B%02d" % first)
+    print("prepared", len(areas), "prompts from B%02d" % first)
 
 
 main()
